@@ -608,6 +608,8 @@ def run_check(prop, tier, rule_fn, replay=None):
         return t
     for f in res.findings:
         t = lookup(f.key)
+        if t is not None and t.get("condition") is not None and not t["condition"](repo):
+            t = None                 # conditional triage: the fact the entry rests on no longer holds in this tree
         if t is not None and (t.get("properties") is None or prop in t["properties"]):
             triaged.append((f, t["reason"]))
             continue
